@@ -11,7 +11,7 @@ for f in seeded/benign/*.diff seeded/benign2/*.diff; do
   out=$(tools/with_patch.sh "$f" python3-vt -m pyvc.run --only "$only" 2>&1 | grep -v "    cover\|    vacuous")
   line=$(echo "$out" | grep "^biobalm" | tail -1)
   if echo "$out" | grep -q "^    \(failed\|refuted\)"; then verdict="FALSE-ALARM"; bad=1
-  elif echo "$line" | grep -q "out_of_subset\|unknown\|crash"; then verdict="undecided"
+  elif echo "$out" | grep "^biobalm" | grep -q "out_of_subset\|unknown\|crash"; then verdict="undecided"
   else verdict="verified"; fi
   echo "$f: $verdict   $line"
 done
